@@ -8,6 +8,10 @@ CLAIMED = {
    text="Machine-checked proof (Coq) that the lifecycle program regenerated from stdlib/stdlib.go on every run is safe for any number of goroutines and every interleaving: no panic, Done only after all admitted executions finished and the callbacks ran exactly once, no execution inside after the callbacks, refusal after a completed Close, no deadlock. The model is tied to the code by (a) regeneration of the action lists from the Go source and (b) replay of model traces on the real context through yield hooks.",
    note="Trusted: Coq kernel; the lifecycle extractor's statement subset; sync.WaitGroup/Once/Mutex/channels as documented; a mutex critical section as one atomic action (checked: every access of the guarded flag is under the mutex); execution bodies as single terminating steps; self-Close from inside an execution excluded.",
    technique="Rocq/Coq inductive-invariant proof over a transition system regenerated from the Go source + model-driven schedule replay", ref="5/C09"),
+ "C07": dict(
+   text="Machine-checked proof (Coq) that every integer operator (+ - * // % divmod ** pow3 << >> & | ^ ~ neg abs, six comparisons, truth) returns the exact Z result in canonical representation for operands of any magnitude in all word/big representation combinations. The word-arithmetic kernel of py/int.go (overflow guards, floor division, shifts) is translated to Gallina by go2v on every run, so the guard-exactness theorems are about the current source; BigInt paths and operator dispatch are a hand-written model tied by correspondence (vm_compute in Coq) on a boundary lattice, with an exact-integer oracle.",
+   note="Trusted: Coq kernel; go2v's semantics for int64/math/big; hand-written BigInt/dispatch model (correspondence-tied, sampled); math/big, strconv. Partial: text conversion (str/int/hex/oct/bin/literals) and Bool operands are covered by the oracle comparison only, not by a theorem; shift counts beyond a word are a listed finding.",
+   technique="Rocq/Coq proof over a go2v translation of the Go source (lia/nia) + hand model tied by vm_compute correspondence", ref="5/C07"),
 }
 NOT_YET = "check not built yet in this round (planned in DESIGN.md section 8)"
 checks = []; na = []
